@@ -162,7 +162,8 @@ INVS = {
             "std": {"label": {"n": {"loc": "l1", "text": "T"}, "n*x": {"loc": "l2", "text": None}, "n.x": {"loc": "l3", "text": None}},
                     "term": {"n": {"loc": "l4", "text": None}, "m": {"loc": "l5", "text": None}}},
             "py": {"label": {"n": {"loc": "l6", "text": None}},
-                   "func": {"n.x": {"loc": "l7", "text": "F"}, "nax": {"loc": "l8", "text": None}}},
+                   "func": {"n.x": {"loc": "l7", "text": "F"}, "nax": {"loc": "l8", "text": None}},
+                   "function": {"n": {"loc": "l9", "text": None}}, "fun": {"n": {"loc": "l10", "text": None}}},
         },
     },
     "ke*": {
@@ -176,7 +177,8 @@ INVS = {
 MENU = {
     "invs": [None, "key", "*", "ke*", "*y", "ke\\*", "zz"],
     "domains": [None, "std", "*", "p*", "*d", "p\\*", "zz"],
-    "otypes": [None, "label", "*", "f*", "*m", "\\*", "zz"],
+    "otypes": [None, "label", "*", "f*", "*m", "\\*", "zz", "func", "fun"],
+    # (types 'fun', 'func', 'function' exist: a pattern must match its coordinate in FULL)
     "targets": [None, "n", "*", "n*", "*x", "n\\*x", "zz", "n.x"],
 }
 
@@ -200,7 +202,7 @@ class FilterSystem(System):
     description = "2 generated inventories (names with '*' and '.') x every filter quadruple from a 7/7/7/8 menu; native and Sphinx representation"
 
     def bounds(self):
-        return {"quadruples": 7 * 7 * 7 * 8}
+        return {"quadruples": 7 * 7 * 9 * 8}
 
     def alphabet(self):
         return MENU
@@ -255,6 +257,8 @@ LINK_INVS = {
         ("sec-one", "std:label", "-1", "page.html#$", "Section One"),
         ("sec*star", "std:label", "-1", "s.html#star", "-"),
         ("sp ace", "std:label", "-1", "sp.html", "-"),
+        ("same-loc", "std:label", "-1", "index.html", "-"),
+        ("same-loc", "std:doc", "-1", "index.html", "Index page"),
         ("mod.func", "py:function", "1", "api.html#$", "-"),
         ("mod.func", "py:class", "1", "api.html#cls", "-"),
     ]),
@@ -265,12 +269,13 @@ LINK_INVS = {
     "k2": ("https://b.org", "P2", "", [
         ("sec-one", "std:label", "-1", "other.html#$", "Two"),
         ("only2", "std:term", "-1", "t.html", "-"),
+        ("same-loc", "std:label", "-1", "index.html", "-"),
     ]),
 }
 L_INVS = [None, "k1", "k2", "k3", "k*", "zz"]
 L_DOMS = [None, "std", "py", "*"]
 L_TYPES = [None, "label", "func*", "*"]
-L_TARGETS = ["sec-one", "mod.func", "sec*", "sec\\*star", "nomatch", "*", "sp ace", "only2", "deep", "top3"]
+L_TARGETS = ["sec-one", "mod.func", "sec*", "sec\\*star", "nomatch", "*", "sp ace", "only2", "deep", "top3", "same-loc"]
 FORMS = ["auto", "explicit", "empty", "title"]
 
 
